@@ -276,6 +276,31 @@ func evalContain(cs CaseContain) Result {
 			return fail("%s: parsed value %v outside its header line %v", x.n, sp(x.v), lineOf[i])
 		}
 	}
+	// documented state predicates: parsed <=> the header is present; never pending after success
+	for _, x := range []struct {
+		n                      string
+		t                      sipsp.HdrT
+		parsed, empty, pending bool
+	}{{"From", sipsp.HdrFrom, pv.From.Parsed(), pv.From.Empty(), pv.From.Pending()},
+		{"To", sipsp.HdrTo, pv.To.Parsed(), pv.To.Empty(), pv.To.Pending()},
+		{"Call-ID", sipsp.HdrCallID, pv.Callid.Parsed(), pv.Callid.Empty(), pv.Callid.Pending()},
+		{"CSeq", sipsp.HdrCSeq, pv.CSeq.Parsed(), pv.CSeq.Empty(), pv.CSeq.Pending()},
+		{"Content-Length", sipsp.HdrCLen, pv.CLen.Parsed(), pv.CLen.Empty(), pv.CLen.Pending()},
+		{"Expires", sipsp.HdrExpires, pv.Expires.Parsed(), pv.Expires.Empty(), pv.Expires.Pending()}} {
+		_, present := firstOf(x.t)
+		if x.parsed != present || x.empty != !present || x.pending {
+			return fail("%s header present=%v but Parsed()=%v Empty()=%v Pending()=%v", x.n, present, x.parsed, x.empty, x.pending)
+		}
+	}
+	_, hasCt := firstOf(sipsp.HdrContact)
+	_, hasPAI := firstOf(sipsp.HdrPAI)
+	if pv.Contacts.Parsed() != hasCt || pv.Contacts.Empty() != !hasCt || pv.PAIs.Parsed() != hasPAI || pv.PAIs.Empty() != !hasPAI {
+		return fail("Contact present=%v: Parsed()=%v Empty()=%v; P-Asserted-Identity present=%v: Parsed()=%v Empty()=%v",
+			hasCt, pv.Contacts.Parsed(), pv.Contacts.Empty(), hasPAI, pv.PAIs.Parsed(), pv.PAIs.Empty())
+	}
+	if !m.Parsed() || m.Err() || !m.FL.Parsed() || m.FL.Pending() || m.FL.Empty() {
+		return fail("message / first line predicates after success: Parsed=%v Err=%v FL.Parsed=%v FL.Pending=%v FL.Empty=%v", m.Parsed(), m.Err(), m.FL.Parsed(), m.FL.Pending(), m.FL.Empty())
+	}
 	if i, okk := firstOf(sipsp.HdrFrom); okk {
 		if r := nestFrom("From", &pv.From, sp(hl.Hdrs[i].Val)); r != "" {
 			return fail("%s", r)
